@@ -185,4 +185,94 @@ theorem buildHosts_hosts (s : Objs) : (buildHosts s).hosts = (Spec.claims s).fol
     rw [fold_vsStep_hosts, h1]
     simp [Spec.tsClaims, hp', Spec.vsClaims, ingClaims_eq]
 
+/-! ### the fold's answer is the Spec's champion -/
+
+theorem eq_of_pairwise_uid {l : List Claim}
+    (hp : l.Pairwise (fun a b => a.md.uid ≠ b.md.uid)) {a b : Claim}
+    (ha : a ∈ l) (hb : b ∈ l) (he : a.md.uid = b.md.uid) : a = b := by
+  induction l with
+  | nil => cases ha
+  | cons x r ih =>
+    rw [List.pairwise_cons] at hp
+    rcases List.mem_cons.mp ha with rfl | ha' <;> rcases List.mem_cons.mp hb with rfl | hb'
+    · rfl
+    · exact absurd he (hp.1 b hb')
+    · exact absurd he.symm (hp.1 a ha')
+    · exact ih hp.2 ha' hb'
+
+/-- `Spec.champion` (the first claim that beats all claims with another UID) is a champion
+in the sense of the fold lemma. -/
+theorem champion_spec {l : List Claim} {c : Claim} (h : Spec.champion l = some c) :
+    IsChampion Claim.md l c := by
+  unfold Spec.champion at h
+  have hm := List.mem_of_find?_eq_some h
+  have hp := List.find?_some h
+  refine ⟨hm, fun x hx hne => ?_⟩
+  have := (List.all_eq_true.mp hp) x hx
+  simp only [Bool.or_eq_true, decide_eq_true_eq] at this
+  rcases this with e | e
+  · exact absurd e hne
+  · exact e
+
+theorem champion_test {l : List Claim} {c : Claim} (h : IsChampion Claim.md l c) :
+    (l.all fun c' => c'.md.uid = c.md.uid || beats c.md c'.md) = true := by
+  rw [List.all_eq_true]
+  intro y hy
+  by_cases e : y.md.uid = c.md.uid
+  · simp [e]
+  · simp [h.2 y hy e]
+
+/-- A list with a champion makes `Spec.champion` find exactly it (distinct UIDs). -/
+theorem champion_eq_of_isChampion {l : List Claim} (hd : l.Pairwise (fun a b => a.md.uid ≠ b.md.uid))
+    {c : Claim} (h : IsChampion Claim.md l c) : Spec.champion l = some c := by
+  cases hf : Spec.champion l with
+  | none =>
+    unfold Spec.champion at hf
+    have := List.find?_eq_none.mp hf c h.1
+    simp [champion_test h] at this
+  | some c1 =>
+    have h1 := champion_spec hf
+    have hu := champion_unique Claim.md h1 h
+    rw [eq_of_pairwise_uid hd h1.1 h.1 hu]
+
+/-- **The running-holder fold over a claim list returns the Spec's champion.** -/
+theorem fold_eq_champion (L : List Claim) (hd : L.Pairwise (fun a b => a.md.uid ≠ b.md.uid)) :
+    ((L.map pairOf).foldl (hstep Prod.snd) none).map (·.1) = (Spec.champion L).map (·.key) := by
+  cases L with
+  | nil => simp [Spec.champion]
+  | cons x r =>
+    simp only [List.map_cons, List.foldl_cons, hstep]
+    have hpw : (pairOf x :: r.map pairOf).Pairwise (fun a b => (Prod.snd a).uid ≠ (Prod.snd b).uid) := by
+      have : ((x :: r).map pairOf).Pairwise (fun a b => (Prod.snd a).uid ≠ (Prod.snd b).uid) := by
+        rw [List.pairwise_map]; exact hd
+      simpa using this
+    obtain ⟨c, hc, hmem, hbeat⟩ := fold_hstep_champion Prod.snd (pairOf x) (r.map pairOf) hpw
+    rw [hc]
+    have hmem' : c ∈ (x :: r).map pairOf := by simpa using hmem
+    obtain ⟨c0, hc0, rfl⟩ := List.mem_map.mp hmem'
+    have h0 : IsChampion Claim.md (x :: r) c0 := by
+      refine ⟨hc0, fun y hy hne => ?_⟩
+      have := hbeat (pairOf y) (by simpa using List.mem_map_of_mem (f := pairOf) hy) (by simpa [pairOf] using hne)
+      simpa [pairOf] using this
+    rw [champion_eq_of_isChampion hd h0]
+    simp [pairOf]
+
+/-- The champion's key does not depend on the order in which the claims are listed. -/
+theorem champion_perm_key {L L' : List Claim} (hp : L.Perm L')
+    (hd : L.Pairwise (fun a b => a.md.uid ≠ b.md.uid)) :
+    (Spec.champion L).map (·.key) = (Spec.champion L').map (·.key) := by
+  have hd' : L'.Pairwise (fun a b => a.md.uid ≠ b.md.uid) :=
+    (hp.pairwise_iff (fun {a b} (h : a.md.uid ≠ b.md.uid) => fun e => h e.symm)).mp hd
+  have hmem : ∀ x, x ∈ L ↔ x ∈ L' := fun x => hp.mem_iff
+  cases h : Spec.champion L with
+  | none =>
+    cases h' : Spec.champion L' with
+    | none => rfl
+    | some c' =>
+      have := champion_perm Claim.md (fun x => (hmem x).symm) (champion_spec h')
+      rw [champion_eq_of_isChampion hd this] at h; cases h
+  | some c =>
+    have := champion_perm Claim.md hmem (champion_spec h)
+    rw [champion_eq_of_isChampion hd' this]
+
 end Nic.Arb
